@@ -126,7 +126,7 @@ fn decode_one(bytes: &[u8], family: &str, o: &mut Outcome) {
     }
 }
 
-fn bomb(shape: &str, n: usize) -> Vec<u8> {
+pub fn bomb(shape: &str, n: usize) -> Vec<u8> {
     match shape {
         "array" => vec![0x81; n],
         "map" => {
@@ -202,7 +202,7 @@ impl Prop for C11 {
              address / hash lengths 0..65536, UTxO sets of 0..2 with datum and script, extreme amounts), every tx lowered from the corpus: \
              canonical(decode(encode(t))) = canonical(t) and equal reported parameters / queries. Garbage: for {} valid encodings every prefix, every \
              single-bit flip and 18 byte substitutions at every offset; nesting bombs (8 shapes, three of them well-shaped IR all the way down or below an unknown key, x 12 depths up to 10^6) alone and spliced into every \
-             field position of a valid document; length bombs; 6 version strings. Oracle: from_bytes returns Ok or Err (no panic / abort / hang, \
+             field position of a valid document; length bombs; version names (known, retired, edits of the current one, unknown names of every length 0..80 in ASCII and with wide characters at every offset). Oracle: from_bytes returns Ok or Err (no panic / abort / hang, \
              4 GiB cap). Non-trivial = a decode was executed; distinct = distinct trees / (document, mutation family).",
             tirgen::contexts().len(),
             tirgen::PLACEMENTS.len(),
@@ -266,19 +266,33 @@ impl Prop for C11 {
             }
             "versions" => {
                 let (bytes, _) = to_bytes(&tirb::empty_tx());
-                for v in ["v1beta0", "v1alpha8", "v1alpha9", "", "V1BETA0", "junk", "v1beta1"] {
+                // names of unknown versions of every length 0..80, in ASCII and with 2-, 3- and 4-byte characters at
+                // every offset (an error that quotes the name must not cut it inside a character), and single
+                // edits of the current name
+                let mut names: Vec<String> = ["v1beta0", "v1alpha8", "v1alpha9", "", "V1BETA0", "junk", "v1beta1", "v1beta0 ", " v1beta0", "v1beta", "v1beta00", "v1beta0\0"]
+                    .iter()
+                    .map(|s| s.to_string())
+                    .collect();
+                for k in 0..=80usize {
+                    names.push("x".repeat(k));
+                    for wide in ["é", "€", "😀"] {
+                        names.push(format!("{}{}", "x".repeat(k), wide.repeat(12)));
+                    }
+                }
+                names.push("v".repeat(100_000));
+                for v in names.iter().map(|s| s.as_str()) {
                     o.evals += 1;
                     let r = panics::catch(|| TirVersion::try_from(v).map(|ver| from_bytes(&bytes, ver).is_ok()));
                     match r {
                         Err(p) => o.violate(Violation::new(format!("version-{}", p.signature()), format!("version {v:?} panicked"))),
                         Ok(Ok(true)) => {
-                            o.class(format!("version-accepted:{v}"));
+                            o.class("version-accepted");
                             if v != "v1beta0" {
                                 o.violate(Violation::new("version|unsupported-accepted", format!("version {v:?} decoded successfully")));
                             }
                         }
                         Ok(Ok(false)) | Ok(Err(_)) => {
-                            o.class(format!("version-refused:{v}"));
+                            o.class("version-refused");
                             if v == "v1beta0" {
                                 o.violate(Violation::new("version|current-refused", "the declared current version is refused"));
                             }
